@@ -23,10 +23,12 @@
    lines inside round brackets (C14_parse_any_blank_runs, C14_whitespace_layout_irrelevant, C14_one_statement_one_yield).
    The statement-level theorems speak about statements NAME[k] = rhs given as token lists (GNorm.neq + a layout) under the
    decidable conditions Denorm.dq_ok / dq_ok_ws; that the statements of real scripts are of this form is checked case by case
-   by K_fixed_domain of harness/props/C14.py, not proved.  Findings #20 and #22 are stated as refutations; #24 (unclosed fence) is repaired in /repo (85765d5): C14_unclosed_fence_rejected. *)
+   by K_fixed_domain of harness/props/C14.py, not proved; that what the parser then stores is a well-formed normalised equation
+   is proved (C14_normal_form_wellformed).  Findings #20, #22 and the reserved-word parameter name (C14_reserved_word_parameter_refuted)
+   are stated as refutations; #24 (unclosed fence) is repaired in /repo (85765d5): C14_unclosed_fence_rejected. *)
 From Coq Require Import String Ascii List Bool Arith ZArith Permutation.
 Import ListNotations.
-Require Import PyBase PyStr Lex Symbols Split Merge ParseEq ParseModel GLex GLexFacts GNorm Layout LayoutNorm LayoutLex LayoutSplit LayoutScript LayoutAccepted ContSplit MergeComm MergePerm Denorm DenormInt DenormFacts LayoutExamples.
+Require Import PyBase PyStr Lex Symbols Split Merge ParseEq ParseModel GLex GLexFacts GNorm Layout LayoutNorm LayoutLex LayoutSplit LayoutScript LayoutAccepted ContSplit MergeComm MergePerm Denorm DenormInt DenormFacts LayoutExamples GraphSrcWf GraphTokWf.
 Open Scope string_scope.
 
 (* ---- stage 3: whitespace ---- *)
@@ -293,6 +295,19 @@ Theorem C14_whitespace_layout_satisfiable :
 Proof. exact ex_ws_layout. Qed.
 Print Assumptions C14_whitespace_layout_satisfiable.
 
+(* … and what is stored is always the text of a WELL-FORMED normalised equation (GNorm.neq_wf: it re-lexes token by token), namely
+   of nrm_q q = q with both sides normalised — provided the right-hand side is separated (GraphSrcWf.sep_ok, decidable: names of
+   terms not keyword-prefixed; no keyword glued to a braced term as in `if{a}`; no keyword right after "<").  This is the bridge
+   from statements in the documented syntax, with any layout, to the token-list theorems (the normaliser's three passes keep a
+   token list lexable: GraphTokWf.nrm_twf). *)
+Theorem C14_normal_form_wellformed : forall (lay : layout) (q : neq),
+  dq_ok_ws lay q = true -> sep_ok lay (nrhs q) = true ->
+  neq_wf (nrm_q q) = true /\
+  parse_equation_M (denorm_text lay q)
+  = of_outcome (equation_symbols (neq_text (nrm_q q)) (cflat (nrm (whole_toks q))) (lneq_terms lay q)).
+Proof. exact normal_form_wellformed. Qed.
+Print Assumptions C14_normal_form_wellformed.
+
 (* a statement spread over several lines inside round brackets is yielded by the splitter as ONE statement, text unchanged:
    cont_scan 0 E = every newline of E stands inside an open round bracket, no other line separator, brackets balanced *)
 Theorem C14_one_statement_one_yield : forall E : string,
@@ -386,6 +401,22 @@ Theorem C14_lhs_index_inner_space_refuted :
   codes_of_res (parse_model_nocheck "Y = X[ 1 ]") = ["self._Y[t] = self._X[t+1]"].
 Proof. exact lhs_index_inner_space_refuted. Qed.
 Print Assumptions C14_lhs_index_inner_space_refuted.
+
+(* NEW (found by the generator, round 2): a parameter or error term whose NAME is a reserved word of Python.  In braces it is
+   accepted (`b = {as} * X`; the fixed-point theorem holds for the statement as written: dq_ok with the braces), but the normal
+   form it produces contains `as[t]`, and written back in the statement syntax (`as[0]`) that is no term: term_re reads it as
+   _INVALID and parse_equation raises ParserError.  So for this accepted script the normal form is NOT a fixed point; the
+   hypothesis of C14_normal_form_fixed_point that fails is kw_free "as" inside dq_ok canon. *)
+Theorem C14_reserved_word_parameter_refuted :
+  denorm_text ex_kwpar_lay ex_kwpar_q = "b = {as} * X" /\ dq_ok ex_kwpar_lay ex_kwpar_q = true /\
+  (exists syms, parse_equation_M "b = {as} * X" = POk syms /\
+     map (fun s => (sname s, stype s, sequation s)) syms
+     = [(Some "b", TEndogenous, Some "b[t] = as[t] * X[t]"); (Some "as", TParameter, None); (Some "X", TExogenous, None)]) /\
+  neq_text ex_kwpar_q = "b[t] = as[t] * X[t]" /\
+  denorm_text canon ex_kwpar_q = "b[0] = as[0] * X[0]" /\ dq_ok canon ex_kwpar_q = false /\
+  parse_equation_M "b[0] = as[0] * X[0]" = PErr ParserError.
+Proof. exact reserved_word_parameter_refuted. Qed.
+Print Assumptions C14_reserved_word_parameter_refuted.
 
 (* fix 85765d5 at work: the script with the open fence is rejected alone and with a statement appended; closing the fence
    makes it an accepted block again, after which the appended statement is parsed as usual *)
